@@ -333,7 +333,15 @@ def rule_small_hole_threshold(P):
             R.ok(iid, where(sites[0][3], sites[0][4]))
         else:
             from collections import Counter
-            major = Counter(s[0] for s in sites).most_common(1)[0][0]
+            # count each distinct comparison once (template instantiations repeat them)
+            uniq = {}
+            for s in sites:
+                uniq.setdefault(s[2], s)
+            major = Counter(s[0] for s in uniq.values()).most_common(1)[0][0]
+            # the canonical predicate isSmallHole() defines the line when the vote is tied
+            pred = [s for s in uniq.values() if s[3]["q"].endswith("::isSmallHole")]
+            if pred and Counter(s[0] for s in uniq.values())[major] * 2 <= len(uniq):
+                major = pred[0][0]
             odd = [s for s in sites if s[0] != major][0]
             R.fail(iid, where(odd[3], odd[4]), Finding(R.rule, odd[3]["file"], base_name(odd[3]["q"]), "threshold",
                    "`%s` draws the small-hole line differently from the other %d comparison(s) in this manager (%s): a hole of exactly the smallest size is dropped by one site and expected in the free structure by another" % (
